@@ -1,6 +1,6 @@
 SPECIFICATION Spec
 CONSTANTS WBase = 32768
-  Thr = {1, 2, 3}
+  Thr = {1, 2, 3, 4}
   Flags = {1, 2}
   Spur = 2
   Bug = "none"
